@@ -154,9 +154,26 @@ def no_sel(t):
     return T(t.op, *[no_sel(a) for a in t.args])
 
 
+def _comp_target(fn, comp):
+    """name a comprehension is assigned to (`name = [..]`), or None"""
+    for st in ast.walk(fn):
+        if isinstance(st, ast.Assign) and st.value is comp and len(st.targets) == 1 and isinstance(st.targets[0], ast.Name):
+            return st.targets[0].id
+    return None
+
+
 def stored_back_over_list(fn, assign, loop):
     """`L[i] = <expr>` inside `for ... in <something over L>` where L is a parameter of `fn` or part of what it returns
     (role of the list, not its name)"""
+    if isinstance(assign, ast.ListComp) and len(assign.generators) == 1 and not assign.generators[0].ifs:
+        # `L = [<expr of f> for f in L]`: every element is replaced, the list is rebound under the name that is returned
+        src_ = assign.generators[0].iter
+        tgt_ = _comp_target(fn, assign)
+        if isinstance(src_, ast.Name) and tgt_ is not None:
+            returned = {n.id for r in ast.walk(fn) if isinstance(r, ast.Return) and r.value is not None for n in ast.walk(r.value) if isinstance(n, ast.Name)}
+            return tgt_ in returned and isinstance(assign.generators[0].target, ast.Name) \
+                and any(isinstance(n, ast.Name) and n.id == assign.generators[0].target.id for n in ast.walk(assign.elt))
+        return False
     if not (isinstance(assign, ast.Assign) and isinstance(assign.targets[0], ast.Subscript) and loop is not None):
         return False
     base = assign.targets[0].value
@@ -837,6 +854,135 @@ def mutations_obligation(prop):
     return Obligation("OX.M", "values still in use are not reordered, consumed or overwritten in passing: no in-place sort of a part of an array, no "
                               "overwrite_input on a live array, no iterator advanced before its consumer, no loop target overwriting a live variable "
                               "(def-use, over the property's modules)", run, floor=1)
+
+
+def loopstate_obligation(prop):
+    """cross-cutting rule on loop state (sa/loopstate.py): per function of the property's modules and per variable, where its life starts relative to the
+    loops, where it is updated, and whether a read may see an earlier iteration's value -- compared with the confirmed reference of the pinned tree"""
+    from sa import loopstate
+    from sa.report import Obligation
+    from .effects_entries import ENTRIES
+    from .loopstate_baseline import STATE
+
+    def run(ctx):
+        quals = [q for q in ENTRIES[prop] if ctx.prog.has(q)]
+        mods = sorted({q.split(".")[0] for q in quals})
+        n_fn = n_var = n_carried = 0
+        undec = []
+        for q, m, fn in ctx.prog.functions():
+            if q.split(".")[0] not in mods:
+                continue
+            n_fn += 1
+            f = loopstate.facts(fn)
+            base = STATE.get(q)
+            for v, r in sorted(f.items()):
+                init, upd, car = sorted(r["init"]), sorted(r["update"]), r["carried"]
+                if not (car or (upd and max(upd) > 0)):
+                    if base is None or v not in base:
+                        continue
+                n_var += 1
+                n_carried += len(car)
+                b = base.get(v) if base is not None else None
+                # (1) a read that may see what an earlier iteration left, outside the deliberate forms
+                if "stale" in car and not (b and "stale" in b[2]):
+                    node, loop = r["stale_sites"][0]
+                    text = (f"`{v}` is read in the loop at line {loop.lineno} (`{norm_text(loop)[:60]}`) on a path on which this iteration has not assigned it: "
+                            f"it is assigned only in a branch / an inner loop of the body, so an iteration that does not take that branch goes on with the value "
+                            f"the previous one (another tomogram, group, file) stored")
+                    if b is not None:
+                        ctx.finding(q, f"loop state of {v}", text + f"; on the pinned tree every iteration assigned `{v}` before reading it", node, m)
+                    elif base is not None and _reads_before_loop_init(fn, v, loop):
+                        undec.append((q, node, text))
+                    else:
+                        undec.append((q, node, text))
+                    continue
+                if b is None:
+                    continue
+                b_init, b_upd = b[0], b[1]
+                # (4) a value that the pinned tree never changed inside a loop is now replaced by a function of itself on every iteration (squared again,
+                #     converted again): the first iteration gets the intended value, the second one the function applied twice
+                if "self-update" not in b[2] and "self-update" in car:
+                    su = [x for x in r.get("self_updates", []) if x[1] == "other" and init and x[2] > min(init)]
+                    if su:
+                        ctx.finding(q, f"loop state of {v}", f"`{norm_text(su[0][0])[:70]}` replaces `{v}` by a function of itself inside a loop, and nothing in the iteration sets `{v}` "
+                                    f"before: the second iteration (the next group, tomogram, file) starts from the value the first one left, not from the one the function was "
+                                    f"given; on the pinned tree every iteration set `{v}` before this statement (or `{v}` did not change inside a loop)", su[0][0], m)
+                        continue
+                    add_ = [x for x in r.get("self_updates", []) if x[1] == "additive"]
+                    if add_:
+                        undec.append((q, add_[0][0], f"`{norm_text(add_[0][0])[:70]}` makes `{v}` a running total over the iterations of a loop; on the pinned tree `{v}` did not "
+                                      "change inside a loop"))
+                        continue
+                if not init or not b_init:
+                    continue
+                # (2) the start of the variable's life moved across a loop although the loop still updates it
+                if max(init) < max(b_init) and upd and max(upd) >= max(b_init) and b_upd and max(b_upd) >= max(b_init):
+                    st = next((s_ for s_, d_ in r["assign_nodes"] if d_ == max(init)), fn)
+                    ctx.finding(q, f"loop state of {v}", f"`{v}` is started once at loop depth {max(init)} and updated inside the loop(s) below it; the pinned tree started "
+                                f"it afresh at depth {max(b_init)}, i.e. on every iteration of the enclosing loop: what one iteration (tomogram, group, file) puts into it "
+                                "is still there in the next", st, m)
+                    continue
+                if max(init) > max(b_init) and b_upd and max(b_upd) > max(b_init) and upd and max(upd) >= max(init) and _read_outside(fn, v, max(init)):
+                    st = next((s_ for s_, d_ in r["assign_nodes"] if d_ == max(init)), fn)
+                    ctx.finding(q, f"loop state of {v}", f"`{v}` collects over the iterations of a loop (started at depth {max(b_init)} on the pinned tree) but is now "
+                                f"started again at depth {max(init)}, inside that loop: what earlier iterations put into it is dropped, only the last one is left "
+                                "where it is used after the loop", st, m)
+                    continue
+                # (3) an assignment hoisted out of a loop although what it reads changes inside the loop
+                if not upd and not b_upd and min(init) < min(b_init):
+                    for st, d_ in r["assign_nodes"]:
+                        if d_ >= min(b_init):
+                            continue
+                        for loop, dep in loopstate.hoisted_dependencies(fn, v, st):
+                            ctx.finding(q, f"loop state of {v}", f"`{norm_text(st)[:70]}` now runs once before the loop at line {loop.lineno}; the pinned tree computed `{v}` inside "
+                                        f"the loop, and what it reads ({', '.join(dep)}) changes from one iteration to the next", st, m)
+                            break
+        ctx.count(n_fn, {"modules": mods, "functions scanned": n_fn, "loop-touching variables compared": n_var, "carried reads classified": n_carried})
+        if undec and not ctx.cur.findings:
+            q, node, text = undec[0]
+            raise Unsupported(f"{q}: {text} -- `{q}` has no confirmed loop state for this variable, so whether that is a deliberate carried flag is not decided", node)
+
+    return Obligation("OX.I", "loop state: a variable that every iteration started afresh on the pinned tree is not carried from one iteration to the next, an "
+                              "accumulator is not started again inside its loop, and nothing is computed once before a loop from what the loop changes "
+                              "(syntax-directed definite-assignment scan per loop, compared with spec/loopstate_baseline.py)", run, floor=1)
+
+
+def _reads_before_loop_init(fn, v, loop):
+    return False
+
+
+def _read_outside(fn, v, depth):
+    """is `v` read at a loop depth below `depth` (after the loop that now re-initialises it)?"""
+    import ast as _a
+
+    def walk(stmts, d):
+        for st in stmts:
+            if isinstance(st, (_a.FunctionDef, _a.AsyncFunctionDef, _a.ClassDef)):
+                continue
+            if isinstance(st, (_a.For, _a.While)):
+                hdr = [st.iter] if isinstance(st, _a.For) else [st.test]
+                if d < depth and any(isinstance(n, _a.Name) and n.id == v and isinstance(n.ctx, _a.Load) for h in hdr for n in _a.walk(h)):
+                    return True
+                if walk(st.body, d + 1) or walk(st.orelse, d):
+                    return True
+                continue
+            subs = [getattr(st, f_) for f_ in ("body", "orelse", "finalbody") if isinstance(getattr(st, f_, None), list)]
+            if subs:
+                tests = [getattr(st, "test", None)] + [i_.context_expr for i_ in getattr(st, "items", [])]
+                if d < depth and any(isinstance(n, _a.Name) and n.id == v and isinstance(n.ctx, _a.Load) for t_ in tests if t_ is not None for n in _a.walk(t_)):
+                    return True
+                for b_ in subs:
+                    if walk(b_, d):
+                        return True
+                for h_ in getattr(st, "handlers", []):
+                    if walk(h_.body, d):
+                        return True
+                continue
+            if d < depth and any(isinstance(n, _a.Name) and n.id == v and isinstance(n.ctx, _a.Load) for n in _a.walk(st)):
+                return True
+        return False
+
+    return walk(fn.body, 0)
 
 
 def constructors_obligation(classes, oid="OX.C"):
